@@ -1,0 +1,25 @@
+//go:build verif
+
+// Copyright The Notary Project Authors.
+// Licensed under the Apache License, Version 2.0 (the "License");
+// you may not use this file except in compliance with the License.
+// You may obtain a copy of the License at
+//
+// http://www.apache.org/licenses/LICENSE-2.0
+//
+// Unless required by applicable law or agreed to in writing, software
+// distributed under the License is distributed on an "AS IS" BASIS,
+// WITHOUT WARRANTIES OR CONDITIONS OF ANY KIND, either express or implied.
+// See the License for the specific language governing permissions and
+// limitations under the License.
+
+package crl
+
+import "github.com/notaryproject/notation-go/internal/file"
+
+// SetVerifWriteFileHook installs a hook that is called at every step of the
+// atomic cache write. Verification instrumentation only: it exists only in
+// builds with the verif tag.
+func SetVerifWriteFileHook(h func(step, tmp, path string)) {
+	file.VerifWriteFileHook = h
+}
